@@ -513,6 +513,37 @@ fn text_case(case: &Value, stats: &mut Stats) -> CheckResult {
     Ok(())
 }
 
+/// All 64 two-file texts ("ab", "ha", ...), with and without a promotion suffix, on positions rich in en-passant
+/// marks and promotions: the abbreviated pawn-capture resolver sees every file pair, including the board edges.
+fn gen_short_case(cur: &mut Cursor) -> Value {
+    let which = cur.pick(&[3usize, 11, 12, 5, 3, 11]);
+    let (p, src) = gen_position_from(cur, which);
+    json!({"fen": p.fen(), "src": src})
+}
+
+fn short_case(case: &Value, stats: &mut Stats) -> CheckResult {
+    let (b, r) = match case_board(case, stats)? {
+        Some(x) => x,
+        None => return Ok(()),
+    };
+    let l = r.legal();
+    for f1 in 0..8u8 {
+        for f2 in 0..8u8 {
+            for suf in ["", "=Q", "N"] {
+                let t = format!("{}{}{}", (b'a' + f1) as char, (b'a' + f2) as char, suf);
+                check_text(&b, &r, &l, &t, stats)?;
+            }
+        }
+    }
+    stats.label_if(r.ep.is_some(), "ep_mark");
+    stats.label_if(r.ep.map_or(false, |s| file_of(s) == 0 || file_of(s) == 7), "ep_mark_on_edge_file");
+    stats.add("texts_checked", 192);
+    if r.ep.is_some() || l.iter().any(|m| matches!(m.kind, Kind::Promo(_))) {
+        stats.nontrivial(&r.rep_key());
+    }
+    Ok(())
+}
+
 /// Documented acceptable variants of a legal move's text must resolve to exactly that move
 /// (over-disambiguation, omitted capture mark, omitted '=', short pawn capture when unique).
 fn variants_case(case: &Value, stats: &mut Stats) -> CheckResult {
@@ -588,7 +619,8 @@ pub fn property() -> Property {
                from_san(text) returns the same move; illegal semilegal moves have no SAN. parse_soundness: positions x grammar-built SAN \
                (meaning known by construction, perturbed piece/destination/hints/promotion/capture mark), mutated canonical SAN, terse pawn \
                captures and alphabet strings: Ok(x) => x is legal, agrees with piece/destination/hints/promotion read by an independent \
-               tokenizer, and is the only legal move that agrees; Ambiguity(a,b) => a != b both legal and agreeing. variants: documented \
+               tokenizer, and is the only legal move that agrees; Ambiguity(a,b) => a != b both legal and agreeing. \
+               short_captures_all_file_pairs: all 64 two-file texts x 3 promotion suffixes on en-passant / promotion positions, same oracle. variants: documented \
                spellings (over-disambiguation, unique single hints, omitted x, omitted =, unique short capture) must resolve to exactly that move. Non-trivial = position with a hint / check mark / excluded pinned \
                candidate (format), tokenizable text (parse).",
         assumptions: &[
@@ -617,6 +649,15 @@ pub fn property() -> Property {
                     r#"{"fen":"8/8/8/K2Pp2r/8/8/8/7k w - e6 0 1","src":"regression_D1","texts":["de","dxe6","d5e6"]}"#,
                     r#"{"fen":"rnbqkbnr/pppppppp/8/8/8/8/PPPPPPPP/RNBQKBNR w KQkq - 0 1","src":"regression_D2","texts":["N","R+","Nx","Q#","€","N€","aé4","e2eé"]}"#,
                 ],
+                exhaustive: false,
+            },
+            SubCheck {
+                name: "short_captures_all_file_pairs",
+                driver: Driver::Generated { gen: gen_short_case, genome_len: 224, quick: 60_000, thorough: 1_500_000 },
+                check: short_case,
+                configs: Configs::Both,
+                required: &["ep_mark_on_edge_file", "accepted", "ambiguity_reported"],
+                regressions: &[],
                 exhaustive: false,
             },
             SubCheck {
